@@ -10,6 +10,8 @@ import (
 	"strconv"
 	"strings"
 	"sync"
+	"sync/atomic"
+	"time"
 
 	"verif/csnet"
 	"verif/vk"
@@ -52,6 +54,9 @@ func runWorker(f *csnet.Fixture, n int, run func(i int) (string, string, outcome
 
 const workerMemKB = 6 * 1024 * 1024 // ulimit -v for a worker (KiB)
 
+// caseTimeout: a single case takes milliseconds; the longest legitimate silence of a worker is far below this
+const caseTimeout = 30 * time.Second
+
 // parent: N workers; a worker that dies is restarted after the case it died on.
 func runParent(r *vk.Run, n int, handle func(i int, res workerResult)) {
 	self, err := os.Executable()
@@ -81,7 +86,12 @@ func runParent(r *vk.Run, n int, handle func(i int, res workerResult)) {
 				sc := bufio.NewScanner(stdout)
 				sc.Buffer(make([]byte, 1<<20), 1<<24)
 				inflight := -1
+				// watchdog: a case that does not return (a handler blocked for ever, e.g. on a leaked mutex) is an
+				// observation about that case; it also ends the wait when the run's own deadline passes
+				var timedOut int32
+				watch := time.AfterFunc(caseTimeout, func() { atomic.StoreInt32(&timedOut, 1); cmd.Process.Kill() })
 				for sc.Scan() {
+					watch.Reset(caseTimeout)
 					line := sc.Text()
 					if strings.HasPrefix(line, "S ") {
 						inflight, _ = strconv.Atoi(line[2:])
@@ -98,6 +108,7 @@ func runParent(r *vk.Run, n int, handle func(i int, res workerResult)) {
 						break
 					}
 				}
+				watch.Stop()
 				err := cmd.Wait()
 				if r.Expired() {
 					return
@@ -112,6 +123,8 @@ func runParent(r *vk.Run, n int, handle func(i int, res workerResult)) {
 				reason := "process died"
 				es := errbuf.String()
 				switch {
+				case atomic.LoadInt32(&timedOut) == 1:
+					reason = fmt.Sprintf("does not return within %v (consensus routine blocked)", caseTimeout)
 				case strings.Contains(es, "out of memory") || strings.Contains(es, "cannot allocate memory"):
 					reason = "fatal error: out of memory (unbounded allocation)"
 				case strings.Contains(es, "stack overflow") || strings.Contains(es, "stack exceeds"):
